@@ -72,7 +72,18 @@ def parse_vspec(path):
         buf = []
 
     cur_contract = None
+    raw_lines = []
     for raw in open(path, encoding="utf-8").read().split("\n"):
+        if raw.startswith("//@ template "):
+            parts = raw[len("//@ template "):].split()
+            tpl = open(os.path.join(VERIF, "specs", "templates", parts[0]), encoding="utf-8").read()
+            for kv in parts[1:]:
+                k, v = kv.split("=", 1)
+                tpl = tpl.replace("{{" + k + "}}", v.replace("~", " "))
+            raw_lines += tpl.split("\n")
+        else:
+            raw_lines.append(raw)
+    for raw in raw_lines:
         if raw.startswith("//@"):
             flush()
             parts = raw[3:].strip().split()
@@ -93,7 +104,7 @@ def parse_vspec(path):
                            "external": [], "contracts": {}, "vec_places": [], "hoists": [],
                            "strip_derives": [], "for_rewrite": [], "chain_hoists": [],
                            "item_stubs": {}, "macro_stubs": {}, "item_attrs": {}, "ident_renames": {}, "item_inject": {}, "trait_sized": [], "expr_hoists": [], "inherent_copy": [],
-                           "external_all": False, "verify": []}
+                           "external_all": False, "verify": [], "strlit_facts": False}
                 unit["sources"].append(cur_src)
             elif d == "keep":
                 cur_src["keep"].append(rest)
@@ -109,6 +120,8 @@ def parse_vspec(path):
                 cur_src["inherent_copy"].append(rest)
             elif d == "trait_sized":
                 cur_src["trait_sized"].append(rest)
+            elif d == "strlit_facts":
+                cur_src["strlit_facts"] = True
             elif d == "external_all":
                 cur_src["external_all"] = True
             elif d == "verify":
